@@ -11,10 +11,14 @@ repo=${VERIF_REPO:-/repo}
 if [ -n "$(git -C $repo status --porcelain --untracked-files=no 2>/dev/null)" ]; then echo "refusing: $repo has uncommitted changes"; exit 2; fi
 prop=${s%-*}
 export VERIF_EVIDENCE_DIR=$(mktemp -d)
-git -C $repo apply $d/patch.diff || { rmdir $VERIF_EVIDENCE_DIR; exit 2; }
+# patch_current.diff: the same change re-based by hand where a later "fix:" commit
+# touched the same lines (patch.diff is against the pinned commit)
+patch=$d/patch.diff
+if ! git -C $repo apply --check $patch 2>/dev/null && [ -f $d/patch_current.diff ]; then patch=$d/patch_current.diff; fi
+git -C $repo apply $patch || { rmdir $VERIF_EVIDENCE_DIR; exit 2; }
 shift
 if [ $# -gt 0 ]; then "$@"; else /verif/check $prop quick; fi
 rc=$?
-git -C $repo checkout -- $(grep '^+++ b/' $d/patch.diff | sed 's|+++ b/||')
+git -C $repo checkout -- $(grep '^+++ b/' $patch | sed 's|+++ b/||')
 rm -rf $VERIF_EVIDENCE_DIR
 exit $rc
